@@ -520,8 +520,11 @@ func runC15(c *Ctx) {
 				if ft, ok := g.EdgeFact(pe[i].From, pe[i].K); ok {
 					ef = append(ef, ft)
 				}
+				isPad := func(v ssa.Value) bool { return v == ssa.Value(padP) }
 				hasParam = hasFact(ef, func(f Fact) bool {
-					return cmpMatch(f, token.LSS, func(v ssa.Value) bool { return v == ssa.Value(padP) }, func(v ssa.Value) bool { k, ok := constUint64(v); return ok && k <= maxBuf })
+					// padLen < k (k <= maxBuf) or padLen <= k (k <= maxBuf-1), either way round
+					return cmpMatch(f, token.LSS, isPad, func(v ssa.Value) bool { k, ok := constUint64(v); return ok && k <= maxBuf }) ||
+						cmpMatch(f, token.LEQ, isPad, func(v ssa.Value) bool { k, ok := constUint64(v); return ok && k+1 <= maxBuf })
 				})
 				if !hasParam {
 					okAll = false
@@ -544,6 +547,9 @@ func runC15(c *Ctx) {
 			case *ssa.BinOp:
 				if x.Op == token.GEQ || x.Op == token.LSS || x.Op == token.GTR || x.Op == token.LEQ {
 					if _, ok := constUint64(x.Y); ok {
+						continue
+					}
+					if _, ok := constUint64(x.X); ok {
 						continue
 					}
 				}
@@ -674,6 +680,7 @@ func runC15(c *Ctx) {
 	// surplus loop: the marker is written len(args) - (arguments consumed) times:
 	// in a loop whose trip count is len(args) minus the counter that indexes args
 	extraOK := false
+	surplusRegion := map[*ssa.BasicBlock]bool{}
 	var idxVals []ssa.Value
 	for _, in := range gf.Ins {
 		if ia, ok := in.(*ssa.IndexAddr); ok && ia.X == ssa.Value(argsP) {
@@ -710,11 +717,32 @@ func runC15(c *Ctx) {
 			for _, iv := range idxVals {
 				if dependsOn(iv, phi) || dependsOn(phi, iv) {
 					extraOK = true
+					surplusRegion[lf.Header] = true
+					for b := range lf.Body {
+						surplusRegion[b] = true
+					}
+					for _, pb := range lf.Header.Preds {
+						surplusRegion[pb] = true
+					}
 				}
 			}
 		}
 	}
-	c.check(extraOK, "C15.R4", "surplus-args kfmt.Fprintf", "one surplus marker per unused argument (loop nextArgIndex < len(args))", "unused arguments are not reported with the surplus marker", m.pos(fprintf.Pos()))
+	// ... and no return of Fprintf gets round that loop (a format that ends in
+	// a verb, or is empty, reports its surplus arguments like any other)
+	surplusSkipped := ""
+	if extraOK {
+		inRegion := func(n int) bool {
+			in := gf.Ins[n]
+			return in != nil && in.Block() != nil && surplusRegion[in.Block()]
+		}
+		ret := isRet(gf)
+		if p := gf.Path([]int{0}, nil, inRegion, func(n int) bool { return !inRegion(n) && ret(n) }); p != nil {
+			surplusSkipped = "Fprintf can return without reaching the loop that reports unused arguments (" + strings.Join(gf.where(p, 6), " ") + ")"
+			extraOK = false
+		}
+	}
+	c.check(extraOK, "C15.R4", "surplus-args kfmt.Fprintf", "one surplus marker per unused argument (loop nextArgIndex < len(args))", "unused arguments are not reported with the surplus marker"+map[bool]string{true: ": " + surplusSkipped, false: ""}[surplusSkipped != ""], m.pos(fprintf.Pos()))
 	c15Width(c, fprintf)
 	// type switch defaults
 	for _, name := range []string{"fmtInt", "fmtString", "fmtBool"} {
